@@ -7,7 +7,12 @@ cfg = json.load(open(os.path.join(ud, "unit.json")))
 fsi = int(os.environ.get("VX_FS", "0"))
 features = cfg["feature_sets"][fsi]
 os.makedirs(os.path.join(VERIF, "out"), exist_ok=True)
-ex = run_extract(os.environ.get("VX_REPO","/repo"), features, unit_items(cfg, features), os.path.join(VERIF, "out"))
+items_ = unit_items(cfg, features)
+ex = run_extract(os.environ.get("VX_REPO","/repo"), features, items_, os.path.join(VERIF, "out"))
+import driver as _drv
+_bad = _drv.cfg_coverage(cfg, items_, ex)
+if _bad:
+    print("UNDECIDED (cfg coverage)", _bad)
 preludes = [os.path.join(VERIF, "prelude", p) for p in cfg["prelude"]]
 for feat, extra in cfg.get("prelude_if", {}).items():
     if feat in features:
